@@ -12,12 +12,20 @@
 //   Q <op> <a> <b> <c> <n> <l1..ln>    append a query to the alphabet of the current mesh
 //   T <caseid> <nthreads> <reps>       run a case; followed by <nthreads> lines
 //   P <len> <i1..ilen>                 program of one thread: indices into the alphabet
+// Every case runs in a forked child, so that a crash of the library under
+// concurrent const queries (heap corruption by a racing scratch buffer, ...)
+// ends that case only and is RECORDED ({"e":"crash",...}, with the phase it
+// happened in and whether the same programs run to completion when replayed
+// on one thread); the remaining cases still run.
 // Every query is evaluated through a `const MeshT &` (and const property
 // handles): the compiler guarantees that only const members are called.
 #include "ovm_state.hh"
 
 #include <array>
 #include <atomic>
+#include <csignal>
+#include <sys/mman.h>
+#include <sys/wait.h>
 #include <optional>
 #include <thread>
 #include <set>
@@ -163,6 +171,7 @@ struct Ctx : ICtx {
         if (op == "cf") { walk(o, m.cf_iter(c, laps)); return o.done(); }
         if (op == "cc") { walk(o, m.cc_iter(c, laps)); return o.done(); }
         if (op == "cc_r") { range(o, m.cell_cells(c)); return o.done(); }
+        if (op == "cv_r") { range(o, m.cell_vertices(c)); return o.done(); }
         if (op == "bhfhf") { walk(o, m.bhfhf_iter(hf, laps)); return o.done(); }
         // ---- definitions
         if (op == "edge") { auto const &x = m.edge(e); o.i(x.from_vertex().idx()); o.i(x.to_vertex().idx()); return o.done(); }
@@ -333,6 +342,20 @@ static std::unique_ptr<ICtx> make_ctx(const std::string &name) {
 // ------------------------------------------------------------------ running a case
 static void put_proj(Json &j, const char *key, const ICtx &c) { j.key(key); c.dump(j); }
 
+// progress of the current case, shared between the forked child and the parent:
+// 1 single-threaded reference, 2 concurrent phase, 3 single-threaded again, 4 logged
+static volatile int *g_phase = nullptr;
+static void set_phase(int p) { if (g_phase) *g_phase = p; }
+
+// the programs of a case, one after the other on ONE thread (same repetitions)
+static void run_sequential_replay(const ICtx &ctx, int reps, const std::vector<std::vector<int>> &progs) {
+    size_t sink = 0;
+    for (auto const &p : progs)
+        for (int r = 0; r < reps; ++r)
+            for (int i : p) sink += ctx.eval(ctx.alpha[(size_t)i]).size();
+    if (sink == (size_t)-1) fputs("", stderr);
+}
+
 static void run_case(const ICtx &ctx, long caseid, int reps, const std::vector<std::vector<int>> &progs) {
     const size_t T = progs.size();
     std::set<int> used; for (auto const &p : progs) for (int i : p) used.insert(i);
@@ -340,6 +363,7 @@ static void run_case(const ICtx &ctx, long caseid, int reps, const std::vector<s
     Json j; j.begin_obj(); j.kv("e", "run"); j.kv("case", (long long)caseid); j.kv("mesh", ctx.name);
     j.kv("threads", (long long)T); j.kv("reps", (long long)reps);
     put_proj(j, "pre", ctx);
+    set_phase(1);
     // single-threaded reference, before the concurrent phase
     // (one entry per query of the alphabet; 0 for a query no thread of this case uses)
     auto put_seq = [&](const char *key) {
@@ -354,6 +378,7 @@ static void run_case(const ICtx &ctx, long caseid, int reps, const std::vector<s
     put_seq("seq");
     // concurrent phase: all threads start together and run their program `reps` times;
     // the answers of the first and of the last repetition are kept
+    set_phase(2);
     std::vector<std::vector<std::string>> first(T), last(T);
     std::atomic<size_t> ready{0}; std::atomic<bool> go{false};
     std::vector<std::thread> th;
@@ -386,13 +411,34 @@ static void run_case(const ICtx &ctx, long caseid, int reps, const std::vector<s
     };
     put_runs("first", first); put_runs("last", last);
     // single-threaded again, after the concurrent phase
+    set_phase(3);
     put_seq("seq2");
     put_proj(j, "post", ctx);
     j.end_obj(); vx::emit(j);
+    set_phase(4);
+}
+
+// run `body` in a forked child under a time limit; returns the wait status (0 = clean exit)
+template <class F> static int in_child(F body) {
+    fflush(stdout); fflush(stderr);
+    pid_t pid = fork();
+    if (pid < 0) { perror("fork"); exit(3); }
+    if (pid == 0) {
+        const char *lim = getenv("READERS_CASE_TIMEOUT");
+        alarm(lim ? (unsigned)atoi(lim) : 900u);
+        body();
+        fflush(stdout); fflush(stderr);
+        _exit(0);
+    }
+    int st = 0; waitpid(pid, &st, 0);
+    if (WIFEXITED(st)) return WEXITSTATUS(st);
+    return 1000 + (WIFSIGNALED(st) ? WTERMSIG(st) : 0);
 }
 
 int main(int argc, char **argv) {
     if (argc < 2) { fprintf(stderr, "usage: readers_exec script.txt\n"); return 2; }
+    g_phase = (volatile int *)mmap(nullptr, sizeof(int), PROT_READ | PROT_WRITE, MAP_SHARED | MAP_ANONYMOUS, -1, 0);
+    if (g_phase == MAP_FAILED) { perror("mmap"); return 3; }
     std::ifstream in(argv[1]);
     if (!in) { fprintf(stderr, "cannot open %s\n", argv[1]); return 2; }
     std::unique_ptr<ICtx> ctx;
@@ -429,7 +475,19 @@ int main(int argc, char **argv) {
                 for (auto const &q : ctx->alpha) { j.begin_obj(); j.kv("op", q.op); j.kv("a", q.a); j.kv("b", q.b); j.kv("c", q.c); j.kint_arr("l", q.l); j.end_obj(); }
                 j.end_arr(); j.end_obj(); vx::emit(j);
             }
-            run_case(*ctx, caseid, reps, progs); ++nruns;
+            *g_phase = 0;
+            const int st = in_child([&] { run_case(*ctx, caseid, reps, progs); });
+            if (st != 0 || *g_phase != 4) {
+                // the case died: in which phase, and do the same programs complete on one thread?
+                const int phase = *g_phase;
+                int st2 = -1;
+                if (phase >= 2) st2 = in_child([&] { run_sequential_replay(*ctx, reps, progs); });
+                Json j; j.begin_obj(); j.kv("e", "crash"); j.kv("case", (long long)caseid); j.kv("mesh", ctx->name);
+                j.kv("threads", (long long)T); j.kv("reps", (long long)reps); j.kv("phase", (long long)phase);
+                j.kv("status", (long long)st); j.kv("seq_replay_ok", st2 == 0);
+                j.end_obj(); vx::emit(j);
+            }
+            ++nruns;
         } else { fprintf(stderr, "readers_exec: unknown script tag %s\n", tag.c_str()); return 3; }
     }
     Json j; j.begin_obj(); j.kv("e", "end"); j.kv("runs", (long long)nruns); j.end_obj(); vx::emit(j);
